@@ -84,6 +84,13 @@ def assigned_names(n: ast.AST) -> Set[str]:
     elif isinstance(n, ast.ExceptHandler):
         if n.name:
             out.add(n.name)
+    # attribute stores kill facts that mention the same attribute name (pseudo-name "attr:<f>")
+    if isinstance(n, (ast.Assign, ast.AugAssign, ast.AnnAssign, ast.Delete)):
+        tgts = n.targets if isinstance(n, (ast.Assign, ast.Delete)) else [n.target]
+        for t in tgts:
+            for x in ast.walk(t):
+                if isinstance(x, ast.Attribute) and isinstance(x.ctx, (ast.Store, ast.Del)):
+                    out.add("attr:" + x.attr)
     # walrus anywhere in the evaluated expressions of this node
     for x in _own_exprs(n):
         for y in ast.walk(x):
@@ -121,7 +128,7 @@ def _own_exprs(n: ast.AST) -> List[ast.AST]:
 
 
 def names_in(e: ast.AST) -> Set[str]:
-    return {x.id for x in ast.walk(e) if isinstance(x, ast.Name)}
+    return {x.id for x in ast.walk(e) if isinstance(x, ast.Name)} | {"attr:" + x.attr for x in ast.walk(e) if isinstance(x, ast.Attribute)}
 
 
 class CFG:
@@ -457,12 +464,36 @@ class CFG:
         return out
 
     # ------------------------------------------------------------------ paths
+    @staticmethod
+    def _flag_update(n: CNode, env: Dict[str, bool]) -> Dict[str, bool]:
+        """track `name = True/False` assignments along a path (boolean flag variables)."""
+        s = n.stmt
+        if n.kind == "stmt" and isinstance(s, ast.Assign) and len(s.targets) == 1 and isinstance(s.targets[0], ast.Name):
+            env = dict(env)
+            if isinstance(s.value, ast.Constant) and isinstance(s.value.value, bool):
+                env[s.targets[0].id] = s.value.value
+            else:
+                env.pop(s.targets[0].id, None)
+            return env
+        ks = assigned_names(s) if (s is not None and n.kind in ("stmt", "for", "with")) else set()
+        if ks & set(env):
+            env = {k: v for k, v in env.items() if k not in ks}
+        return env
+
+    @staticmethod
+    def _flag_feasible(facts: Tuple[Atom, ...], env: Dict[str, bool]) -> bool:
+        for a, pol in facts:
+            if isinstance(a, ast.Name) and a.id in env and env[a.id] != pol:
+                return False
+        return True
+
     def paths(self, to_raise: bool = False, max_paths: int = MAX_PATHS) -> List[List[CNode]]:
-        """entry->exit paths, each node at most twice per path (one loop unrolling)."""
+        """entry->exit paths, each node at most twice per path (one loop unrolling); paths that
+        contradict a boolean flag variable assigned earlier on the same path are pruned."""
         out: List[List[CNode]] = []
         target = {self.exit} | ({self.raise_exit} if to_raise else set())
 
-        def go(n: CNode, path: List[CNode], count: Dict[int, int]):
+        def go(n: CNode, path: List[CNode], count: Dict[int, int], env: Dict[str, bool]):
             if len(out) > max_paths:
                 raise AnalysisError(f"more than {max_paths} paths in {getattr(self.func, 'name', '<lambda>')}")
             if n in target:
@@ -470,14 +501,39 @@ class CFG:
                 return
             if n is self.raise_exit:
                 return
-            for s, _f in n.succ:
+            env = self._flag_update(n, env)
+            for s, f in n.succ:
                 if count.get(s.id, 0) >= 2:
                     continue
+                if not self._flag_feasible(f, env):
+                    continue
                 count[s.id] = count.get(s.id, 0) + 1
-                go(s, path + [n], count)
+                go(s, path + [n], count, env)
                 count[s.id] -= 1
 
-        go(self.entry, [], {self.entry.id: 1})
+        go(self.entry, [], {self.entry.id: 1}, {})
+        return out
+
+    def body_paths(self, head: CNode, inside: Callable[[CNode], bool], max_paths: int = MAX_PATHS) -> List[Tuple[List[CNode], List[Atom]]]:
+        """paths head -> ... -> head through nodes satisfying `inside` (one loop iteration), with the
+        edge facts collected along each; flag-infeasible paths pruned."""
+        out: List[Tuple[List[CNode], List[Atom]]] = []
+
+        def go(n: CNode, path: List[CNode], facts: List[Atom], env: Dict[str, bool]):
+            if len(out) > max_paths:
+                raise AnalysisError("too many loop-body paths")
+            env = self._flag_update(n, env) if n is not head else env
+            for s, f in n.succ:
+                if not self._flag_feasible(f, env):
+                    continue
+                if s is head:
+                    out.append((path + [n], facts + list(f)))
+                    continue
+                if s in path or not inside(s):
+                    continue
+                go(s, path + [n], facts + list(f), env)
+
+        go(head, [], [], {})
         return out
 
     def between(self, a: CNode, b: CNode) -> Set[CNode]:
